@@ -73,7 +73,7 @@ def run(rep: Report) -> None:
     n = 0
     for ck in cks:
         cfg = ck.cfg
-        base = by.get(replace(cfg, flags=frozenset()))
+        base = by.get(replace(cfg, flags=frozenset(), history=()))
         if base is None:
             rep.undecided("clamp-identity", cfg.label(), "", "no flag-off counterpart")
             continue
@@ -117,7 +117,7 @@ def run(rep: Report) -> None:
     # nothing clamped with all options off: over the whole base
     allc = wire_results(rep, "base") + [ck for ck in cks if not ck.cfg.flags]
     for ck in allc:
-        if ck.cfg.flags:
+        if ck.cfg.flags or ck.cfg.history:
             continue
         hit = None
         for p in ck.paths:
